@@ -52,6 +52,7 @@ func init() {
 		Rule: ctlRule, Jobs: ctlJobs,
 		Assume: []string{"sequentially consistent interleavings at synchronisation points"}}
 	Checks["C13"] = &CheckDef{Prop: "C13", Technique: "stateless model checking of the real code: preemption-bounded exhaustive schedule enumeration plus init-fault enumeration; oracle = no inotify descriptor and no library goroutine left after Close returned",
-		Rule: ctlRule, Jobs: ctlJobs,
+		Rule: ctlRule + "; plus family life: n create/close cycles x every subset of cycles whose inotify_init1 fails x consumer on/off",
+		Jobs: func(tier string) []Job { return append(lifeJobs(tier), ctlJobs(tier)...) },
 		Assume: []string{"descriptor accounting through the syscall seam (every inotify_init1/os.NewFile/Close of the back end is intercepted)"}}
 }
